@@ -51,6 +51,14 @@ Proof. exact manager_hooks_once. Qed.
 Theorem C20_manager_hooks_nodup : forall d s0 h, NoDup (m_hooks s0) -> NoDup (m_hooks (mrun d s0 h)).
 Proof. exact manager_hooks_nodup. Qed.
 
+(* QueryMsg::Epoch { id } is consistent with history: every epoch created along any schedule is afterwards reported, at any
+   later point of that schedule, with exactly the id and the start time it was created with *)
+Theorem C20_manager_query_agrees_with_history : forall d h s0 k now e msgs,
+  0 <= d -> 0 <= e_start (m_epoch s0) < P64 ->
+  nth_error (mcreated d s0 h) k = Some (now, e, msgs) ->
+  mquery d (mrun d s0 h) (e_id e) = Ok e.
+Proof. exact manager_query_history. Qed.
+
 (* ---------------- fee distributor ---------------- *)
 Theorem C20_distributor_early_rejected_frame : forall d g now cur ok,
   now - e_start cur < d ->
@@ -102,6 +110,12 @@ Example C20_manager_nonvacuous :
   mstep DAY 999 nv_m0 (MCreate []) = Panic /\ 0 < DAY /\ NoDup (m_hooks nv_m0).
 Proof. vm_compute. repeat split; try reflexivity. constructor. Qed.
 
+Example C20_manager_query_nonvacuous :
+  map (fun id => mquery DAY (mrun DAY nv_m0 nv_msched) id) [8; 9; 10; 11] =
+  [Ok (mkEpoch 8 (1000 + DAY)); Ok (mkEpoch 9 (1000 + 2 * DAY)); Ok (mkEpoch 10 (1000 + 3 * DAY)); Ok (mkEpoch 11 (1000 + 4 * DAY))] /\
+  0 <= DAY /\ 0 <= e_start (m_epoch nv_m0) < P64.
+Proof. vm_compute. repeat split; try reflexivity; discriminate. Qed.
+
 Definition G0 : Z := 1000 * DAY + 5000.     (* genesis, well after 1970 + one duration *)
 Definition nv_dsched : list devent :=
   [ (G0 - 1, true); (G0, true); (G0, true); (G0 + DAY - 1, true); (G0 + DAY, false); (G0 + DAY, true);
@@ -118,6 +132,7 @@ Print Assumptions C20_manager_epochs_exact.
 Print Assumptions C20_manager_strictly_increasing.
 Print Assumptions C20_manager_hooks_once.
 Print Assumptions C20_manager_hooks_nodup.
+Print Assumptions C20_manager_query_agrees_with_history.
 Print Assumptions C20_distributor_early_rejected_frame.
 Print Assumptions C20_distributor_not_before_genesis.
 Print Assumptions C20_distributor_step_exact.
